@@ -343,6 +343,8 @@ class Run:
                 self.known_hits.append((tag, k["what"]))
                 out("KNOWN-FINDING: property=%s %s" % (self.pid, k["what"]))
             return False
+        if key in [v[0] for v in self.violations]:
+            return True
         if len(self.violations) >= 25:
             self.violations.append((key, None))
             return True
